@@ -46,6 +46,11 @@ def run(ctx):
     d2_newmark(ctx)
     d2_projection_guard(ctx)
     d3_blocks(ctx)
+    from .common import hook_agreement, mode_dispatch
+    for f_ in FACTORIES:
+        hook_agreement(ctx, "D2/T6-one-gradient-transformation", f"{M}:{f_}", min_sites=3)
+    mode_dispatch(ctx, "D2/T14-mode-dispatch", [f"{M}:create_mechanics_functions", f"{M}:create_multi_block_mechanics_functions",
+                                                 f"{M}:parse_2D_to_3D_gradient_transformation"])
     ctx.trust("python ast; optilint resolver (flow-insensitive name binding, transparent jax wrappers)")
     ctx.trust("jax.hessian(f) differentiates twice w.r.t. positional argument 0 unless argnums is given")
 
